@@ -121,6 +121,16 @@ pub fn min_same(seed: u64, len: usize) {
         };
         println!("{}", json!({"ev":"eq","what":format!("plain = with-k-mers, runs on {} bases, w={} m={}", len, w, m),"a":show(&plain),"b":show(&kv)}));
     }
+    // the raw bytes 0x00-0x03 (which the lookup table inherited from minimap2 reads as pre-encoded bases) are left
+    // unspecified by the other properties, but the two iterators must still agree on them
+    for i in 0..200usize {
+        let (w, m) = [(4usize, 2usize), (6, 3), (9, 9), (12, 5), (31, 7)][i % 5];
+        let n = rng.range(0, 80) as usize;
+        let s: Vec<u8> = (0..n).map(|_| if rng.below(5) == 0 { rng.below(4) as u8 } else { *rng.pick(b"ACGTacgtN") }).collect();
+        let plain: Vec<(u64, usize, usize)> = MinimiserGenerator::new(&s, w, m).collect();
+        let kv: Vec<(u64, usize, usize)> = KmerMinimiserGenerator::new(&s, w, m).map(|(v, a, b, _)| (v, a, b)).collect();
+        println!("{}", json!({"ev":"eq","what":format!("plain = with-k-mers, runs on {:?}, w={} m={}", s, w, m),"a":format!("{:?}", plain),"b":format!("{:?}", kv)}));
+    }
     println!("{}", json!({"ev":"eof"}));
 }
 
